@@ -34,7 +34,16 @@ def clean_repo():
 
 def apply(patch):
     r = sh(f"git -C {REPO} apply --whitespace=nowarn {patch}")
-    return r.returncode == 0, r.stderr
+    if r.returncode != 0:
+        # the patch was made against an earlier commit (a later fix: commit touched the same file): three-way merge
+        r2 = sh(f"git -C {REPO} apply --whitespace=nowarn -3 {patch}")
+        st = sh(f"git -C {REPO} diff --name-only --diff-filter=U").stdout.strip()
+        sh(f"git -C {REPO} reset -q")            # keep the changes in the working tree only (nothing staged)
+        if r2.returncode == 0 and not st:
+            return True, ""
+        sh(f"git -C {REPO} checkout -- .")
+        return False, r.stderr + r2.stderr
+    return True, ""
 
 
 def run_demo(demo):
@@ -44,7 +53,7 @@ def run_demo(demo):
 
 def cmd_import(pid, src):
     out = {}
-    for x in ("A", "B", "C", "D", "E", "F"):
+    for x in ("A", "B", "C", "D", "E", "F", "G", "H"):
         d, dm, mt = (os.path.join(src, f"{x}{s}") for s in (".diff", "_demo.py", "_meta.json"))
         if not (os.path.exists(d) and os.path.exists(dm)):
             continue
